@@ -142,10 +142,13 @@ theorem error_offset_in_range (cx : Ctx) (q : Bytes) (err : Err) (hn : cx.n = q.
     have hr := (parser_ok cx (fuelFor q)).1 q none
     generalize exprF cx (fuelFor q) q none = r at h hr
     have hE := hr.err.trans ((endCheck_ok cx r.rest r.err).mono hr.rest_le)
-    generalize endCheck cx r.rest r.err = fe at h hE
-    cases fe with
-    | none => simp at h
-    | some x => simp at h; exact fin _ hE (by rw [h])
+    dsimp only at h
+    split at h
+    · rename_i x hx
+      simp at h
+      rw [hx] at hE
+      exact fin _ hE (by rw [h])
+    · simp at h
   · intro h
     have hr := projLoop_ok cx (q.length + 1) [] q none
     have hE := hr.2.trans ((endCheck_ok cx _ _).mono hr.1)
